@@ -47,6 +47,13 @@ func TestC17(t *testing.T) {
 				for _, usage := range usages {
 					key := randKey(rng, et)
 					c17Wrap(m, v, rng, et, key, usage, byte(flags), seq, []byte("hello"), false)
+					if flags == 0 && seq == 0 && usage == usages[0] {
+						// payloads around and beyond 64 KiB (lengths are not 16-bit quantities)
+						for _, n := range []int{65519, 65535, 65536, 65537, 70000, 131072} {
+							c17Wrap(m, v, rng, et, key, usage, 0, 1, rng.Bytes(n), false)
+							c17Mic(m, v, rng, et, key, usage, 0, 1, rng.Bytes(n), false)
+						}
+					}
 					c17Mic(m, v, rng, et, key, usage, byte(flags), seq, []byte("hello"), false)
 				}
 			}
